@@ -138,7 +138,7 @@ Section PREP.
     | Fn name args =>
       if String.eqb name "mapFromArrays" && String.eqb (fst (rexpr e no_opts rst0)) labels_map_raw then Raw labels_map_raw
       else if String.eqb name "cityHash64" && String.eqb (fst (rexpr e no_opts rst0)) fp_labels_raw then Raw fp_labels_raw
-      else if String.eqb name "mapFromArrays" && match cand_lookup (expr_text e) cands with Some _ => true | None => false end
+      else if (String.eqb name "mapFromArrays" || String.eqb name "mapFilter") && match cand_lookup (expr_text e) cands with Some _ => true | None => false end
       then match cand_lookup (expr_text e) cands with Some m => m | None => e end
       else
         let args' := map (prep_e env) args in
